@@ -12,7 +12,7 @@
      R n { q rank }              rank hint
      A n { code }                behaviour code per leaf
      U b                         utf8 mode (0/1)
-     C tag                       evaluate the certificates: prints "C tag dfa_ok sim_ok exact_ok wf_graph"
+     C tag                       evaluate the certificates: prints "C tag dfa_ok sim_ok exact_ok wf_graph prompt_ok"
      P id mode len { byte }      probe: mode 0 = full, 1 = partial; prints "P id ref: ... | spec: ..."
      N id mode start len { byte }   one next() call with token_end = start
 *)
@@ -95,8 +95,8 @@ let () =
             let d = get_dfa () and g = get_graph () in
             let v = mk_pairing !vhint and ds = mk_pset !dshint and r = get_rank () in
             let b x = if x then "1" else "0" in
-            Buffer.add_string buf (Printf.sprintf "C %s %s %s %s %s\n" tag
-              (b (dfa_ok d)) (b (sim_ok d g v ds)) (b (exact_ok d g v r ds)) (b (wf_graph g)))
+            Buffer.add_string buf (Printf.sprintf "C %s %s %s %s %s %s\n" tag
+              (b (dfa_ok d)) (b (sim_ok d g v ds)) (b (exact_ok d g v r ds)) (b (wf_graph g)) (b (prompt_ok d g v r)))
         | "P" ->
             let id = toks.(1) in pos := 2;
             let mode = next () in let len = next () in
@@ -104,6 +104,20 @@ let () =
             let r1 = run_ref (get_graph ()) !utf8 !acts (mode = 1) w in
             let r2 = if mode = 0 && !dstates <> [] then print_ns (run_spec (get_dfa ()) (get_rank ()) !utf8 !acts w) else "-" in
             Buffer.add_string buf (Printf.sprintf "P %s ref: %s | spec: %s\n" id (print_ns r1) r2)
+        | "T" ->
+            (* T id mode len bytes : read log of every attempt of the optimised executor (U = 8) *)
+            let id = toks.(1) in pos := 2;
+            let mode = next () in let len = next () in
+            let w = List.init len (fun _ -> n_of_int (next ())) in
+            let g = get_graph () in
+            let u8 = S (S (S (S (S (S (S (S O))))))) in
+            let starts = region_starts g !utf8 !acts (mode = 1) w in
+            let parts = List.map (fun st ->
+              let tr = run_opt_trace u8 g (mode = 1) w st in
+              Printf.sprintf "%d: %s" (int_of_n st) (print_ns tr)) starts in
+            let ro = run_opt u8 g !utf8 !acts (mode = 1) w in
+            let rr = run_ref g !utf8 !acts (mode = 1) w in
+            Buffer.add_string buf (Printf.sprintf "T %s %s | %s\n" id (if ro = rr then "same" else "OPTDIFF " ^ print_ns ro) (String.concat " | " parts))
         | "N" ->
             (* N id mode start len bytes : one next() call from token_end = start *)
             let id = toks.(1) in pos := 2;
